@@ -28,6 +28,7 @@ def run(check: Check):
   _errors(check)
   _buffered_shuffle(check)
   _padded_multi(check)
+  _concat(check)
   _shuffle_batch(check)
   _repeatable(check)
   _centralised(check)
@@ -263,6 +264,18 @@ def _padded_multi(check: Check):
   check.ob('R-CONSERVE.contiguous', fi, 'slice(start) | slice(start, start+B), start += B | slice(start, size)', ok_w and ok_t and ok_h,
            f'a client\'s rows are consumed as consecutive slices [0,start) [start,start+B)... [start,size): head={ok_h}, whole '
            f'batches={ok_w}, tail={ok_t}')
+  # the cursor into the current client's rows starts afresh with every client
+  from fjsa.flow import carried_reads
+  dl = next((n.ast for n in ff.cfg.nodes if n.kind == 'for' and ff.param_of(n.ast.iter) == fi.positional_params[0]), None)
+  if dl is not None:
+    stale = carried_reads(ff, dl, START)
+    check.ob('R-CONSERVE.cursor', fi, f'{START} assigned in every iteration before it is read', not stale,
+             f'the position inside the current client must not be inherited from the previous client' +
+             (f': `{START}` read at line(s) {sorted({x.lineno for x in stale})} can still hold the previous client\'s value - its first rows '
+              'would be skipped' if stale else ''), node=stale[0] if stale else None)
+    stale_sz = carried_reads(ff, dl, SIZE)
+    check.ob('R-CONSERVE.cursor', fi, f'{SIZE} assigned in every iteration before it is read', not stale_sz,
+             'the row count is the current client\'s', node=stale_sz[0] if stale_sz else None)
   # final flush
   fin = any(isinstance(x, ast.Call) and wmean.repo_fn(ff, x) == f'{CD}:_pick_final_batch_size' and txt(x.args[0]) == BSZ
             for x in ast.walk(fi.node))
@@ -274,6 +287,35 @@ def _padded_multi(check: Check):
   ym = [y for _, y in ff.yields() if isinstance(y.value, ast.Call) and wmean.repo_fn(ff, y.value) == f'{CD}:attach_mask']
   okm = len(ym) >= 2 and FM is not None and all(txt(y.value.args[1]) == FM for y in ym)
   check.ob('R-CONSERVE.mask', fi, 'attach_mask(preprocessor(...), all-True mask)', okm, 'every full batch is emitted with an all-True mask')
+
+
+def _concat(check: Check):
+  """concat_examples keeps every piece of every feature: an empty piece still names the features of an all-empty stream."""
+  repo = check.repo
+  fi = repo.func(CD, 'concat_examples')
+  ff = FuncFlow.of(repo, fi)
+  check.analysed(fi)
+  p = fi.positional_params[0]
+  outer = next((n.ast for n in ff.cfg.nodes if n.kind == 'for' and ff.param_of(n.ast.iter) == p), None)
+  apps = [(n, c) for n, c in ff.calls() if isinstance(c.func, ast.Attribute) and c.func.attr in ('append', 'extend')]
+  ok = False
+  why = 'no accumulation loop over the pieces found'
+  if outer is not None and apps:
+    n, c = apps[0]
+    inner = wmean._loop_of(ff, c)
+    every_outer = wmean._on_every_iteration(ff, outer, n) if inner is outer else (
+        inner is not None and wmean._on_every_iteration(ff, inner, n) and wmean._loop_of(ff, inner) is outer and
+        wmean._on_every_iteration(ff, outer, next(x for x in ff.cfg.nodes if x.ast is inner and x.kind == 'for')))
+    key_ok = inner is None or inner is outer or (isinstance(inner.iter, ast.Call) and isinstance(inner.iter.func, ast.Attribute) and inner.iter.func.attr == 'items')
+    ok = bool(every_outer and key_ok)
+    why = f'every feature array of every piece is appended, unconditionally={bool(every_outer)}; pieces are visited feature by feature={key_ok}'
+  check.ob('R-CONSERVE.concat', fi, 'for piece: for k, v in piece.items(): parts[k].append(v)', ok,
+           why + ' - skipping (e.g. empty) pieces loses the feature set of a stream that only has empty clients')
+  ret = [rv for _, rv in ff.returns()]
+  cat = any(isinstance(x, ast.Call) and ff.ext(x.func) == 'numpy.concatenate' for rv in ret for x in ast.walk(rv))
+  axis0 = all(not any(k.arg == 'axis' and not (isinstance(k.value, ast.Constant) and k.value.value == 0) for k in x.keywords)
+              for rv in ret for x in ast.walk(rv) if isinstance(x, ast.Call) and ff.ext(x.func) == 'numpy.concatenate')
+  check.ob('R-CONSERVE.concat', fi, 'np.concatenate(parts, axis=0) per feature', cat and axis0, 'pieces are joined along the example axis, in order')
 
 
 def _block_of(ff: FuncFlow, st: ast.stmt) -> List[ast.stmt]:
